@@ -9838,7 +9838,8 @@ def _write_node(node, xml_tree=None, viewport_transform=None):
             # Cannot write generic svgelement form
             return
     # Write Transform
-    if hasattr(node, "transform") and not isinstance(node, Group):
+    if hasattr(node, "transform") and not isinstance(node, (Group, Use)):
+        # (The children of a group or use carry the accumulated transform themselves.)
         t = node.transform
         if viewport_transform:
             t = t * viewport_transform
